@@ -152,6 +152,7 @@ PREFIXES = ["f", "F", "rf", "fr", "Rf", "fR", "RF"]
 QUOTES = ["'", '"', "'''", '"""']
 LITS = ["", "a", " b c ", "é", "#", "x=1", ":", "!", "(", "]"]
 LITS_KNOWN = ["{{", "}}", "a{{b}}c", "\\n", "\\\\", "\\x41", "\\N{DIGIT ONE}", "\\'"]
+LITS_RAW = ["\\", "\\d", "C:\\", "a\\b", "\\\\", "\\n", "\\ "]
 FIELDS = ["{yield}", "{yield x}", "{yield from it}", "{await z}", "{not x}", "{x or y}", "{-x}", "{x < y}", "{x[1:2]}", "{x}", "{ x }", "{x!r}", "{x!s}", "{x!a}", "{x:>10}", "{x:.2f}", "{x!r:^8}", "{x.y[0]}", "{f(a, b)}", "{a + b}", "{(lambda: 1)()}", "{a if b else c}", "{[i for i in z]}", "{ {1: 2}[1] }", "{x:}", "{x:%Y-%m}", "{x,}", "{*a, b}", "{x!r:}", "{yield_}", "{a.b!s:>{w}}"[:0] or "{a.b!s}", "{x:#x}", "{x:,}", "{x:08.3f}"]
 FIELDS_KNOWN = ["{x=}", "{x = }", "{x=!r}", "{x:{w}}", "{x:{w}.{p}}", "{x!r:>{w}}", "{x:=5}" if False else "{x:>{w}}"]
 
@@ -173,6 +174,8 @@ def build_inputs(tier):
             k = r.random()
             if k < 0.4:
                 lit = r.choice(LITS if r.random() < 0.8 else LITS_KNOWN)
+                if "r" in p.lower() and r.random() < 0.5:
+                    lit = r.choice(LITS_RAW)  # raw f-strings: a backslash is an ordinary character, also right before a field
                 parts.append(lit)
             else:
                 f = r.choice(FIELDS if r.random() < 0.85 else FIELDS_KNOWN)
